@@ -721,6 +721,14 @@ def monitor_c14(se, stats):
             for qn, q in prev["queues"].items():
                 if q["consumers"] and qn not in cur["queues"] and not ends_something:
                     viol.append({"step": i, "what": "queue %s was deleted while it had consumers %s and nothing ended them (after `%s`)" % (qn, q["consumers"], st["op"])})
+            # content frames that arrive on a channel that is closed complete nothing: whatever publish was being assembled
+            # went with the channel
+            if f[0] in ("HDR", "BODY") and prev["chans"].get((int(f[1]), int(f[2])), {"st": 1})["st"] == 3:
+                stats["content_on_closed_channel"] = stats.get("content_on_closed_channel", 0) + 1
+                for qn, q in cur["queues"].items():
+                    pq = prev["queues"].get(qn)
+                    if pq is not None and len(q["ready"]) > len(pq["ready"]):
+                        viol.append({"step": i, "what": "a content frame on the closed channel %s.%s put a message into queue %s (after `%s`)" % (f[1], f[2], qn, st["op"])})
             ended_conn = None
             if f[0] in ("DROP", "CLOSE", "CLOSEOK"):
                 ended_conn = int(f[1])
